@@ -309,8 +309,15 @@ merger_iter_next(void *v,
 					 ubuf_data(it->cur_key), ubuf_size(it->cur_key),
 					 ubuf_data(it->cur_val), ubuf_size(it->cur_val),
 					 e->val, e->len_val, &merged_val, &len_merged_val);
-			if (merged_val == NULL)
+			if (merged_val == NULL) {
+				/*
+				 * The sources have been partially consumed for this
+				 * key: fail until the caller seeks again instead of
+				 * emitting the key with a partial value next time.
+				 */
+				it->finished = true;
 				return (mtbl_res_failure);
+			}
 			ubuf_clip(it->cur_val, 0);
 			ubuf_append(it->cur_val, merged_val, len_merged_val);
 			free(merged_val);
